@@ -278,3 +278,69 @@ func crashingCollaborators(x *mon.Ctx, class string, reject *world.Case) {
 	}
 	x.Require(class, 0, 0, n) // (most of these end in a panic reaching the caller, which is neither an accept nor a reject)
 }
+
+// reentrantGetter serves the scripted responses, and while serving its first request it verifies ANOTHER quote through the very
+// options value whose verification is asking (a getter that keeps a warm-up / health check, a multiplexer that verifies a sibling
+// platform first — everything on one goroutine, no concurrency involved).
+type reentrantGetter struct {
+	inner   trust.HTTPSGetter
+	opts    *verify.Options
+	other   []byte
+	depth   int
+	nested  int
+	nestErr error
+}
+
+func (g *reentrantGetter) Get(u string) (map[string][]string, []byte, error) {
+	if g.depth == 0 && g.nested == 0 {
+		g.depth++
+		g.nested++
+		g.nestErr = verify.RawTdxQuote(g.other, g.opts)
+		g.depth--
+	}
+	return g.inner.Get(u)
+}
+
+// reentrantCollaborators: the verdict for a quote that must be refused does not change when the caller's getter, called for this
+// very verification, runs a complete verification of another (acceptable) quote through the same options value.
+// honest and reject must come from worlds with the same platform, roots and collateral.
+func reentrantCollaborators(x *mon.Ctx, class string, honest, reject *world.Case) {
+	n := 0
+	for _, crl := range []bool{false, true} {
+		for _, form := range []string{"raw", "message"} {
+			c := *reject
+			c.GetCollateral, c.CheckCRL = true, crl
+			o, _ := mon.Options(&c)
+			hc := *honest
+			hc.GetCollateral, hc.CheckCRL = true, crl
+			_, g := mon.Options(&hc) // the endpoint serves the trusted world's collateral
+			rg := &reentrantGetter{inner: g, opts: o, other: honest.Quote}
+			o.Getter = rg
+			var err error
+			pv, _ := mon.Guard(func() {
+				if form == "raw" {
+					err = verify.RawTdxQuote(c.Quote, o)
+				} else {
+					err = verify.TdxQuote(mon.MessageFor("built", c.Quote), o)
+				}
+			})
+			param := fmt.Sprintf("%s/%s/crl=%v", reject.Class, form, crl)
+			prob := ""
+			switch {
+			case pv != "":
+				// (a crash is C10's finding)
+			case rg.nested == 0:
+				x.Broken(class + ": the getter was never asked (" + param + ")")
+			case rg.nestErr != nil:
+				x.Broken(class + ": the nested verification of the acceptable quote failed: " + rg.nestErr.Error())
+			case err == nil:
+				prob = "a quote that must be refused (" + reject.Class + "/" + reject.Param + ") was reported as verified after the getter, while serving this verification, verified another quote through the same options value"
+			}
+			if prob != "" {
+				x.Violation(class, param, prob, "none", param)
+			}
+			x.Note(class, param, false, pv != "", prob == "")
+			n++
+		}
+	}
+}
